@@ -834,7 +834,8 @@ impl Axecutor {
             if self
                 .mem_init_zero_named(
                     stack_start,
-                    length + (stack_layout.len() as u64) * 8,
+                    // 32 bytes of slack so that aligning the frame never pushes it out of the area
+                    length + (stack_layout.len() as u64) * 8 + 32,
                     "Stack".to_string(),
                 )
                 .is_ok()
@@ -846,7 +847,8 @@ impl Axecutor {
 
         // TODO: auxiliary vector
         // Make sure the stack is aligned to 16 bytes
-        let mut stack_top = (stack_start + length - 16) & !0xf;
+        let mut stack_top =
+            (stack_start + length + (stack_layout.len() as u64) * 8 + 32 - 16) & !0xf;
         if stack_layout.len() % 2 == 1 {
             // However, if we push an uneven amount of 64 bit values, we need to adjust
             stack_top -= 8;
